@@ -5,6 +5,7 @@ import (
 	"errors"
 	"fmt"
 	"io"
+	"unicode/utf8"
 
 	"github.com/ipfs/go-cid"
 	"github.com/ipld/go-ipld-prime"
@@ -157,6 +158,11 @@ func (s *SignedHead) Sign(privKey ic.PrivKey) error {
 	cidBytes := s.Head.(cidlink.Link).Cid.Bytes()
 	var topicLen int
 	if s.Topic != nil {
+		// The topic travels as a JSON string. Bytes that are not UTF-8 are
+		// replaced on the way, and the signature would not verify.
+		if !utf8.ValidString(*s.Topic) {
+			return errors.New("topic is not valid UTF-8")
+		}
 		topicLen = len(*s.Topic)
 	}
 	sigBuf.Grow(len(cidBytes) + topicLen)
